@@ -182,3 +182,49 @@ Proof.
     + destruct (draw t) as [x t']. cbn [fst]. apply orb_true_iff. left. eapply Hf. right. exact E.
     + apply orb_true_iff. right. apply gen_scalar_default_ok. exact He.
 Qed.
+
+(* ---- FieldMask paths ------------------------------------------------------------------------------ *)
+Lemma letter_lower x : lower (letter x) = true.
+Proof.
+  unfold lower, in_rng, letter. pose proof (N.mod_upper_bound x 26). rewrite b2n_n2b_small by lia.
+  apply andb_true_iff. split; apply N.leb_le; lia.
+Qed.
+
+Definition good_seg (s : list byte) : Prop := s <> [] /\ Forall (fun b => lower b = true) s.
+
+Lemma draw_segment_good tp : good_seg (fst (draw_segment tp)).
+Proof.
+  unfold draw_segment. pose proof (draw_n_range 1 6 tp ltac:(lia)) as Hn. destruct (draw_n 1 6 tp) as [n t1]. cbn [fst] in Hn.
+  match goal with |- context [draw_many ?f ?k ?t] =>
+    pose proof (draw_many_forall (fun b => lower b = true) f) as H; specialize (fun Hf => H Hf k t);
+    pose proof (draw_many_length f k t) as Hl; destruct (draw_many f k t) as [l t2] end.
+  cbn [fst] in *. split.
+  - destruct l; [cbn in Hl; lia|discriminate].
+  - apply H. intros t. destruct (draw t) as [x t']. apply letter_lower.
+Qed.
+
+Lemma fm_seg s : Forall (fun b => lower b = true) s -> forall rest dots ne,
+  fm_path_aux (s ++ rest) dots ne = fm_path_aux rest dots (ne || negb (is_nilb s)).
+Proof.
+  induction 1 as [|b s Hb _ IH]; intros rest dots ne; cbn [app is_nilb negb]; [rewrite orb_false_r; reflexivity|].
+  cbn [fm_path_aux]. rewrite Hb. rewrite IH. cbn [orb]. rewrite orb_true_r. reflexivity.
+Qed.
+
+Lemma fm_more more : Forall good_seg more -> forall dots, (length more <= dots)%nat ->
+  fm_path_aux (concat (map (fun s => dot :: s) more)) dots true = true.
+Proof.
+  induction 1 as [|s more [Hne Hs] _ IH]; intros dots Hd; [reflexivity|].
+  cbn [map concat app fm_path_aux]. cbn [length] in Hd. destruct dots as [|d]; [lia|].
+  change (lower dot) with false. change (b2n dot =? 46) with true. cbv iota. cbn [andb].
+  rewrite fm_seg by exact Hs. destruct s; [congruence|]. cbn [is_nilb negb orb]. apply IH. lia.
+Qed.
+
+Lemma draw_path_ok tp : fm_path_ok (fst (draw_path tp)) = true.
+Proof.
+  unfold draw_path, fm_path_ok. pose proof (draw_segment_good tp) as [Hne Hs]. destruct (draw_segment tp) as [s0 t1]. cbn [fst] in *.
+  pose proof (draw_n_range 0 2 t1 ltac:(lia)) as Hk. destruct (draw_n 0 2 t1) as [k t2]. cbn [fst] in Hk.
+  pose proof (draw_many_forall good_seg draw_segment draw_segment_good (N.to_nat k) t2) as Hm.
+  pose proof (draw_many_length draw_segment (N.to_nat k) t2) as Hl.
+  destruct (draw_many draw_segment (N.to_nat k) t2) as [more t3]. cbn [fst] in *.
+  rewrite fm_seg by exact Hs. destruct s0; [congruence|]. cbn [is_nilb negb orb]. apply fm_more; [exact Hm|lia].
+Qed.
